@@ -190,7 +190,24 @@ def load_known(prop):
     return {f["key"]: f for f in data["findings"] if f.get("property") == prop and f.get("status", "known") == "known"}
 
 
-def run_property(prop, scenarios, tier, seed, functions, stubs, assumptions, explanation):
+def replay_file(prop, scenarios, path):
+    """re-run a recorded schedule on real threads: exit 1 if the violation shows again"""
+    d = json.load(open(path))
+    sc = [x for x in scenarios if x.name == d.get("scenario")]
+    if not sc or sc[0].make_real is None:
+        print("no replayable scenario named %r" % d.get("scenario"))
+        return 3
+    obs, log, s = replay_real(sc[0], d["order"], d["params"], d["init"], d.get("clock") or {})
+    print(json.dumps({k: (v if isinstance(v, (int, str, bool, type(None))) else str(v)) for k, v in obs.items()}))
+    if obs.get("violated"):
+        print("VIOLATION property=%s replay=%s" % (prop, path))
+        return 1
+    return 0
+
+
+def run_property(prop, scenarios, tier, seed, functions, stubs, assumptions, explanation, merge=False):
+    """merge=True: the property also has an E1 part that has just written evidence/<prop>.json; this run's coverage is
+    filed under coverage.interleavings of that file and the replay files are numbered after E1's"""
     t0 = time.time()
     known = load_known(prop)
     problems, violations, known_hit, results = [], [], {}, []
@@ -258,7 +275,7 @@ def run_property(prop, scenarios, tier, seed, functions, stubs, assumptions, exp
         print("KNOWN-FINDING: property=%s %s" % (prop, kf["what"]))
     vfiles = []
     for sc, r in violations:
-        path = os.path.join(EVDIR, "replays", "%s_%d.json" % (prop, len(vfiles)))
+        path = os.path.join(EVDIR, "replays", "%s_%s%d.json" % (prop, "sched" if merge else "", len(vfiles)))
         json.dump({"property": prop, "scenario": sc.name, "order": r["order"], "schedule": r["schedule"],
                    "params": r["witness_params"], "init": r["witness_init"], "clock": r["clock"]}, open(path, "w"), indent=1)
         vfiles.append(path)
@@ -291,10 +308,18 @@ def run_property(prop, scenarios, tier, seed, functions, stubs, assumptions, exp
           "assumptions": assumptions + ["z3 is sound", "one model step = one traced source line (bytecode-level interleavings inside a "
                                         "line are outside the claim)"],
           "wall_s": round(time.time() - t0, 3), "violations": len(vfiles)}
+    if merge:
+        base = json.load(open(os.path.join(EVDIR, "%s.json" % prop)))
+        base["coverage"]["interleavings"] = dict(ev["coverage"], level="model_checking")
+        base["coverage"]["known_findings_hit"] = list(base["coverage"].get("known_findings_hit", [])) + list(known_hit)
+        base["assumptions"] = list(base.get("assumptions", [])) + [a for a in ev["assumptions"] if a not in base.get("assumptions", [])]
+        base["wall_s"] = round(base.get("wall_s", 0) + ev["wall_s"], 3)
+        base["violations"] = base.get("violations", 0) + len(vfiles)
+        ev = base
     json.dump(ev, open(os.path.join(EVDIR, "%s.json" % prop), "w"), indent=1, default=str)
     print("%s tier=%s scenarios=%d sat=%d unsat=%d validated_traces=%d wall=%.1fs"
           % (prop, tier, len(results), len([r for r in results if r["verdict"] == "sat"]),
-             len([r for r in results if r["verdict"] == "unsat"]), validated, ev["wall_s"]))
+             len([r for r in results if r["verdict"] == "unsat"]), validated, time.time() - t0))
     if vfiles:
         return 1
     if problems:
